@@ -1,11 +1,193 @@
 /-
-C44 — Access lists decide by first match, even when checks go asynchronous.  (placeholder while the proofs are written)
+C44 — Access lists decide by first match, even when checks go asynchronous.
+
+Property theorems only.  Model: `SquidModel.Acl.Tree` (ACLChecklist, the node classes, Acl::Tree), `TreeSys`
+(several checklists over one list, configuration -> tree); reference semantics and resumption specification:
+`TreeRef`; proofs: `TreeLemmas`, `TreeTop`, `TreeSysLemmas`.
+
+Everything is for ALL rule lists (any nesting of not/and/or/all-of nodes), all leaf scripts (truth value or
+exception, any number of lookups, each completing later or inside goAsync), all sets of banned actions, any number
+of checklists and ALL interleavings.  The one hypothesis, `CheckOk`, says that no leaf needs a 7th goAsync() call
+within one evaluation (and that a fast check has no leaf that needs a lookup); `loop_limit_counterexample` shows
+that it cannot be dropped: squid's async-loop protection refuses the 7th call and the leaf then counts as a
+mismatch.
 -/
-import SquidModel.Acl.TreeSys
+import SquidModel.Acl.TreeSysLemmas
 
 namespace SquidModel.C44
 open SquidModel.Acl.Tree
 
-theorem lastAction_nil : lastAction [] = { code := .dunno } := rfl
+/-! ### the reference: first match, implicit rule -/
+
+/-- The decision for boolean leaves, written as in the property text: the action of the first rule (that is not
+banned) whose ACL expression is true. -/
+def firstMatch (truth : Nat → Bool) (banned : Answer → Bool) : Rules → Option Answer
+  | [] => none
+  | (a, n) :: rest =>
+    if banned a then firstMatch truth banned rest
+    else if evalB truth n then some a
+    else firstMatch truth banned rest
+
+/-- For leaves that only match or mismatch, the reference decision is the action of the first non-banned rule whose
+ACLs all match (`evalB`: negation = `!`, all-of/and = conjunction, any-of/or = disjunction), and when no rule
+matches it is the implicit answer. -/
+theorem reference_is_first_match (ctx : Ctx) (h : BoolLeaves ctx) (rules : Rules) :
+    reference ctx rules =
+      match firstMatch ctx.truth ctx.isBanned rules with
+      | some a => a
+      | none => implicitAnswer rules := by
+  have key : ∀ rs : Rules, refRules ctx rs = firstMatch ctx.truth ctx.isBanned rs := by
+    intro rs
+    induction rs with
+    | nil => rfl
+    | cons r rest ih =>
+      obtain ⟨a, n⟩ := r
+      simp only [refRules, firstMatch, ref_bool ctx h n, ih]
+      split
+      · rfl
+      · cases evalB ctx.truth n <;> simp [ofBool]
+  unfold reference
+  rw [key]
+  cases firstMatch ctx.truth ctx.isBanned rules <;> rfl
+
+/-- implicit_answer: when no rule matches, the answer is the opposite of the last rule's action, marked implicit;
+neither allow nor deny for an empty list. -/
+theorem implicit_answer (rules : Rules) :
+    (rules = [] → implicitAnswer rules = { code := .dunno, implicit := true }) ∧
+    (∀ a n, rules.getLast? = some (a, n) → a.code = .allowed →
+      implicitAnswer rules = { code := .denied, implicit := true }) ∧
+    (∀ a n, rules.getLast? = some (a, n) → a.code = .denied →
+      implicitAnswer rules = { code := .allowed, implicit := true }) := by
+  refine ⟨?_, ?_, ?_⟩
+  · intro h; subst h; rfl
+  · intro a n h hc; simp [implicitAnswer, h, hc]
+  · intro a n h hc; simp [implicitAnswer, h, hc]
+
+/-! ### the theorems about the checklist code -/
+
+/-- interleaved_checklists_independent (which contains answer_eq_reference and async_eq_sync): any number of
+checklists share one access list (and its `lastMatch_`); `is` is ANY sequence of steps, each starting one checklist
+or completing its pending lookup.  Whenever a checklist has answered, its answer is the reference decision for ITS
+leaf values and banned actions, and no modelled assertion has failed in it.  The initial value of the shared
+`lastMatch_` is arbitrary. -/
+theorem interleaved_checklists_independent (rules : Option Rules) (checks : List Check)
+    (hok : ∀ c ∈ checks, CheckOk c) (lm : Option Nat) (is : List Nat) (i : Nat) (a : Answer) (s : CL)
+    (h : (runSteps rules checks is { initSys checks with lastMatch := lm }).sts[i]? = some (.done a s)) :
+    ∃ c, checks[i]? = some c ∧ a = expected rules c ∧ s.fault = none := by
+  have hinv0 : SysInv rules checks { initSys checks with lastMatch := lm } :=
+    ⟨(initSys_inv rules checks).len, (initSys_inv rules checks).each⟩
+  have hinv := runSteps_inv rules checks hok is _ hinv0
+  have hlt : i < checks.length := by
+    rcases List.getElem?_eq_some_iff.mp h with ⟨hl, _⟩; rw [← hinv.len]; exact hl
+  exact ⟨checks[i], List.getElem?_eq_getElem hlt, hinv.each i _ _ (List.getElem?_eq_getElem hlt) h⟩
+
+/-- A suspended checklist never holds a failed assertion either, and it still has a lookup outstanding. -/
+theorem suspended_is_sound (rules : Option Rules) (checks : List Check)
+    (hok : ∀ c ∈ checks, CheckOk c) (is : List Nat) (i : Nat) (s : CL)
+    (h : (runSteps rules checks is (initSys checks)).sts[i]? = some (.paused s)) :
+    s.fault = none ∧ s.stage = .running ∧ s.path ≠ [] ∧ PendingOk s := by
+  have hinv := runSteps_inv rules checks hok is _ (initSys_inv rules checks)
+  have hlt : i < checks.length := by
+    rcases List.getElem?_eq_some_iff.mp h with ⟨hl, _⟩; rw [← hinv.len]; exact hl
+  obtain ⟨rs, _, hp⟩ := hinv.each i _ _ (List.getElem?_eq_getElem hlt) h
+  exact ⟨hp.fault, hp.stage, hp.nonempty, hp.pending⟩
+
+/-- schedule_terminates: the schedule loop of the harness (every entry picks one of the checklists that have not
+answered) ends within `fuelFor checks` steps for EVERY schedule, and then every checklist has answered with its
+reference decision. -/
+theorem schedule_terminates (rules : Option Rules) (checks : List Check) (hok : ∀ c ∈ checks, CheckOk c)
+    (sched : List Nat) (i : Nat) (c : Check) (hc : checks[i]? = some c) :
+    ∃ s, (runSched rules checks (fuelFor checks) sched (initSys checks)).sts[i]? = some (.done (expected rules c) s) ∧
+      s.fault = none := by
+  have hinv := runSched_inv rules checks hok (fuelFor checks) sched _ (initSys_inv rules checks)
+  have hdone := runSched_done rules checks hok (fuelFor checks) sched _ (initSys_inv rules checks)
+    (by have := sysMeasure_init checks; omega)
+  have hlt : i < (runSched rules checks (fuelFor checks) sched (initSys checks)).sts.length := by
+    rcases List.getElem?_eq_some_iff.mp hc with ⟨hl, _⟩; rw [hinv.len]; exact hl
+  have hst := List.getElem?_eq_getElem hlt
+  have hd := hdone _ (List.getElem_mem hlt)
+  cases hx : (runSched rules checks (fuelFor checks) sched (initSys checks)).sts[i] with
+  | idle => rw [hx] at hd; cases hd
+  | paused s => rw [hx] at hd; cases hd
+  | done a s =>
+    rw [hx] at hst
+    have := hinv.each i c _ hc hst
+    exact ⟨s, by rw [hst, this.1], this.2⟩
+
+/-- async_eq_sync: the decision does not depend on which ACLs need lookups, how many, or whether the lookups
+complete later or at once: a check and the same check with every lookup removed end with the same answer, for every
+schedule (position 0 = the only checklist of each system). -/
+theorem async_eq_sync (rules : Option Rules) (c : Check) (hok : CheckOk c) (sched sched' : List Nat) :
+    let sync : Check := { c with rounds := [] }
+    ∃ s s', (runSched rules [c] (fuelFor [c]) sched (initSys [c])).sts[0]? = some (.done (expected rules c) s) ∧
+      (runSched rules [sync] (fuelFor [sync]) sched' (initSys [sync])).sts[0]? = some (.done (expected rules c) s') := by
+  intro sync
+  have hoks : CheckOk sync := by
+    intro l; simp [sync, roundsOf_nil, okRounds]
+  obtain ⟨s, hs, _⟩ := schedule_terminates rules [c] (by simpa using hok) sched 0 c rfl
+  obtain ⟨s', hs', _⟩ := schedule_terminates rules [sync] (by simpa using hoks) sched' 0 sync rfl
+  exact ⟨s, s', hs, hs'⟩
+
+/-- fast_eq_reference: fastCheck() over leaves that need no lookup gives the reference decision (also covered by
+`schedule_terminates`; stated for the entry point itself). -/
+theorem fast_eq_reference (ctx : Ctx) (rules : Rules) (lm : Option Nat) (hfast : ctx.asyncCaller = false) :
+    ∃ s, (fastCheck ctx (some rules) lm {}).2 = .answered (reference ctx rules) s ∧ s.fault = none :=
+  fastCheck_spec ctx rules lm {} hfast rfl rfl rfl (by intro l; simp [roundsOf_nil, okRounds])
+
+/-- The hypothesis `CheckOk` is needed: a leaf that is true but needs 7 lookups that all complete inside goAsync()
+is refused its 7th goAsync() call (asyncLoopDepth_ > 5) and counts as a mismatch: `allow L0` answers DENIED. -/
+theorem loop_limit_counterexample :
+    let c : Check := { kind := .nonBlocking, script := [{ val := .t }], banned := [],
+                       rounds := [List.replicate 7 .immediate] }
+    let rules : Rules := [({ code := .allowed }, .and [.leaf 0])]
+    checkOkB c = false ∧
+    expected (some rules) c = { code := .allowed } ∧
+    ((runSched (some rules) [c] (fuelFor [c]) [] (initSys [c])).sts.map
+      (fun st => match st with | .done a _ => some a | _ => none)) = [some { code := .denied, implicit := true }] := by
+  decide
+
+/-- ... and 6 such lookups are fine (boundary). -/
+example :
+    let c : Check := { kind := .nonBlocking, script := [{ val := .t }], banned := [],
+                       rounds := [List.replicate 6 .immediate] }
+    let rules : Rules := [({ code := .allowed }, .and [.leaf 0])]
+    checkOkB c = true ∧
+    ((runSched (some rules) [c] (fuelFor [c]) [] (initSys [c])).sts.map
+      (fun st => match st with | .done a _ => some a | _ => none)) = [some { code := .allowed }] := by
+  decide
+
+/-! ### non-vacuity -/
+
+/-- `CheckOk` is satisfiable by checks that really suspend: lookups of both kinds, several per leaf. -/
+example : CheckOk { kind := .nonBlocking, script := [{ val := .t }, { val := .f }], banned := [],
+                    rounds := [[.deferred, .immediate, .deferred], [.immediate, .immediate]] } :=
+  checkOk_of_B _ (by decide)
+
+/-- Two checklists with different truth values over one list `deny L0 / allow !L1`, interleaved so that the second
+finishes while the first is suspended: each gets its own answer (DENIED by rule 1, ALLOWED by rule 2). -/
+example :
+    let rules : Rules := [({ code := .denied }, .and [.leaf 0]), ({ code := .allowed }, .and [.not (.leaf 1)])]
+    let c0 : Check := { kind := .nonBlocking, script := [{ val := .t }, { val := .t }], banned := [],
+                        rounds := [[.deferred, .deferred], []] }
+    let c1 : Check := { kind := .nonBlocking, script := [{ val := .f }, { val := .f }], banned := [],
+                        rounds := [[.deferred], [.deferred]] }
+    ((runSteps (some rules) [c0, c1] [0, 1, 1, 1, 0, 0] (initSys [c0, c1])).sts.map
+      (fun st => match st with | .done a _ => some a | _ => none)) = [some { code := .denied }, some { code := .allowed }] ∧
+    ((runSteps (some rules) [c0, c1] [0, 1, 1] (initSys [c0, c1])).sts.map Status.isDone) = [false, false] := by
+  decide
+
+/-- The reference distinguishes the cases of the property text: first match wins, the implicit rule reverses the
+last action, the empty list gives DUNNO, an exception leaf ends the check, a banned action is skipped. -/
+example : reference { script := [{ val := .f }, { val := .t }], asyncCaller := true, banned := [] }
+    [({ code := .denied }, .and [.leaf 0]), ({ code := .allowed }, .and [.leaf 1]), ({ code := .denied }, .and [])] =
+    { code := .allowed } := by decide
+example : reference { script := [{ val := .f }], asyncCaller := true, banned := [] }
+    [({ code := .denied }, .and [.leaf 0])] = { code := .allowed, implicit := true } := by decide
+example : reference { script := [], asyncCaller := true, banned := [] } [] = { code := .dunno, implicit := true } := by
+  decide
+example : reference { script := [{ val := .stop .authRequired }], asyncCaller := true, banned := [] }
+    [({ code := .denied }, .and [.not (.leaf 0)])] = { code := .authRequired } := by decide
+example : reference { script := [{ val := .t }], asyncCaller := true, banned := [{ code := .denied }] }
+    [({ code := .denied }, .and [.leaf 0]), ({ code := .allowed }, .and [.leaf 0])] = { code := .allowed } := by decide
 
 end SquidModel.C44
